@@ -93,10 +93,16 @@ fn gen_edge(rng: &mut Rng, nv: usize, nc: usize) -> Vec<Vec<L>> {
                 // tautology: a literal and its negation (possibly with a repeated literal around it)
                 let i = rng.below(cls.len() as u64) as usize;
                 if let Some(&l) = cls[i].first() {
-                    let pos = rng.range(0, cls[i].len());
-                    cls[i].insert(pos, (l.0, !l.1));
-                    if rng.coin() {
-                        cls[i].push(l);
+                    if rng.chance(1, 3) {
+                        // x, -x, x in input order: the repetition survives Cnf::new
+                        cls[i].insert(1, (l.0, !l.1));
+                        cls[i].insert(2, l);
+                    } else {
+                        let pos = rng.range(0, cls[i].len());
+                        cls[i].insert(pos, (l.0, !l.1));
+                        if rng.coin() {
+                            cls[i].push(l);
+                        }
                     }
                 }
             }
@@ -470,6 +476,15 @@ pub fn run(case: &str, st: &mut Stats) -> Outcome {
     }
     if raw.iter().any(|c| (0..c.len()).any(|a| (a + 1..c.len()).any(|b| c[a] == c[b]))) {
         st.bump("has_duplicate_literal");
+    }
+    // does a repeated literal survive Cnf::new (stable sort by label + adjacent dedup)?  e.g. x,-x,x
+    if raw.iter().any(|c| {
+        let mut d = c.clone();
+        d.sort_by_key(|l| l.0); // stable
+        d.dedup();
+        (0..d.len()).any(|a| (a + 1..d.len()).any(|b| d[a] == d[b]))
+    }) {
+        st.bump("repeated_literal_survives_Cnf::new");
     }
     let nocc: usize = raw
         .iter()
